@@ -18,6 +18,7 @@ func init() {
 			"R17.3 nil-receiver consistency: HasBody can install a nil *peekingReader, so every method dereferences its receiver only under p != nil. " +
 			"R17.1 also: HasContent touches no field of the reader but the buffered stream (no remembered answer) and newPeekingReader always returns a fresh wrapper. " +
 			"R17.1 also: a constant true answer of HasContent is given only under Buffered() > 0 or a non-empty Peek. " +
+			"R17.1 also: the stream is probed only when no Content-Length header is present. " +
 			"NOT decided: the byte sequences bufio delivers under arbitrary chunking (bufio is trusted).",
 		Assumptions: []string{"bufio.Reader.Peek/Read deliver the underlying bytes in order as documented"},
 		Run:         runC17,
